@@ -57,9 +57,10 @@ EXITING = ["busy", "prints", "swallow_finish", "swallow_raise"]
 POSITIONS = ["before_handler", "after_return", "during_next", "after_next", "free"]
 GATED = ["gate_finish", "gate_raise"]
 NEVER = ["swallow", "swallowassign", "lock"]
+ORDINARY = ["excloop", "excloopprint"]     # loops inside `except Exception`: the termination must get through
 
 PROG_FLAGS = {  # prints swallows blocked
-    "busy": "000", "prints": "100", "swallow": "010", "swallowassign": "010", "swallowprint": "110", "lock": "001",
+    "busy": "000", "prints": "100", "excloop": "000", "excloopprint": "100", "swallow": "010", "swallowassign": "010", "swallowprint": "110", "lock": "001",
     "swallow_finish": "110", "swallow_raise": "110", "gate_finish": "100", "gate_raise": "100",
 }
 
@@ -72,7 +73,7 @@ def all_scenarios(limit):
     for p in GATED:
         for pos in ("claim_first", "lose_race", "dies_at_claim"):
             out.append({"program": p, "position": pos, "limit": limit})
-    for p in NEVER:
+    for p in NEVER + ORDINARY:
         out.append({"program": p, "position": "free", "limit": limit})
     out.append({"program": "swallowprint", "position": "free", "limit": limit})
     return out
